@@ -138,6 +138,9 @@ def run(ctx):
     r6 = ctx.rule("R19.6", "a boundary stop is reported: the exit path replaces the status by HasMoreOutput only when it is NeedsMoreInput "
                            "(never the BlockBoundary stop, also when the output window is full)", floor=1, config="H4")
     ic.rule_override(ctx, "H4", r6)
+    r7 = ctx.rule("R19.7", "the running checksum in a boundary record / clone covers all output so far: every non-failing exit of a call (also the "
+                           "BlockBoundary stop) folds the bytes it wrote into check_adler32", floor=10, config="H4")
+    ic.rule_adler_epilogue(ctx, "H4", r7)
     r3 = ctx.rule("R19.5", "every decoder register is written back on every exit (a clone taken between calls captures the whole state)", floor=3, config="H4")
     ic.rule_localvars(ctx, "H4", r3)
     ic.rule_loop_state(ctx, "H4", r3)
